@@ -840,11 +840,16 @@ package scipipe
 //@   loop 0 invariant vis: forall k string :: $visited[k] ==> k in procs
 //@   loop 0 invariant grows: forall p ref :: old(sawReady)[p] ==> sawReady[p]
 
-//@ define keyedByName(m map[string]WorkflowProcess) bool = forall k string :: k in m ==> m[k] != nil && procName(m[k]) == k
+// Process names identify processes (Workflow.AddProc refuses a second process with the same name): procOf is the
+// inverse of procName on non-nil processes.
+//@ ghost func procOf(name string) ref
+//@ axiom procOf.inverse: forall p ref :: p != nil ==> procOf(procName(p)) == p
+//@ define keyedByName(m map[string]WorkflowProcess) bool = forall k string :: k in m ==> m[k] != nil && m[k] == procOf(k) && procName(m[k]) == k
+//@ define listed(m map[string]WorkflowProcess, q ref) bool = procName(q) in m && m[procName(q)] == q
+
 //@ func mergeWFMaps(a, b) (res)
 //@   props C16
 //@   modifies a[*]
-//@   ensures members: old(keyedByName(a)) && keyedByName(b) && a != b ==> keyedByName(a) && (forall q ref :: q != nil ==> (listed(a, q) <==> (old(listed(a, q)) || listed(b, q))))
 //@   ensures same-map: res == a
 //@   ensures union: forall k string :: k in a <==> (old(k in a) || k in b)
 //@   ensures values: forall k string :: k in a ==> (k in b && a[k] == b[k]) || (!(k in b) && a[k] == old(a[k]))
@@ -854,50 +859,45 @@ package scipipe
 
 // q is a direct upstream of p: some in-port or parameter in-port of p has a remote (out-)port owned by q
 //@ define directUp(q ref, p ref) bool = (exists i string, r string :: i in inPortsOf(p) && r in inPortsOf(p)[i].RemotePorts && inPortsOf(p)[i].RemotePorts[r].process == q) || (exists i string, r string :: i in inParamPortsOf(p) && r in inParamPortsOf(p)[i].RemotePorts && inParamPortsOf(p)[i].RemotePorts[r].process == q)
-// Process names identify processes (Workflow.AddProc refuses a second process with the same name).
-//@ axiom procName.identifies: forall p ref, q ref :: procName(p) == procName(q) ==> p == q
-//@ define listed(m map[string]WorkflowProcess, q ref) bool = procName(q) in m && m[procName(q)] == q
 
 //@ func upstreamProcsForProc(proc) (procs)
 //@   props C16
 //@   modifies new(map[string]WorkflowProcess)
 //@   ensures fresh: fresh(procs) && procs != nil
-//@   ensures keyed-by-name: forall k string :: k in procs ==> procs[k] != nil && procName(procs[k]) == k
-//@   ensures direct-upstream-listed: forall q ref :: directUp(q, proc) ==> listed(procs, q)
-//@   ensures closed-under-upstream: forall k string, q ref :: k in procs && directUp(q, procs[k]) ==> listed(procs, q)
-//@   ensures only-upstream: forall k string :: k in procs ==> directUp(procs[k], proc) || (exists k2 string :: k2 in procs && directUp(procs[k], procs[k2]))
-//@   ensures closed-q: forall q1 ref, q ref :: listed(procs, q1) && directUp(q, q1) ==> listed(procs, q)
-//@   ensures only-upstream-q: forall q ref :: listed(procs, q) ==> directUp(q, proc) || (exists q2 ref :: listed(procs, q2) && directUp(q, q2))
+//@   ensures keyed-by-name: keyedByName(procs)
+//@   ensures direct-upstream-listed: forall q ref :: q != nil && directUp(q, proc) ==> procName(q) in procs
+//@   ensures closed-under-upstream: forall k string, q ref :: k in procs && q != nil && directUp(q, procOf(k)) ==> procName(q) in procs
+//@   ensures only-upstream: forall k string :: k in procs ==> directUp(procOf(k), proc) || (exists k2 string :: k2 in procs && directUp(procOf(k), procOf(k2)))
 //@   loop 0 invariant fresh: fresh(procs) && procs != nil
 //@   loop 0 invariant vis: forall i string :: $visited[i] ==> i in inPortsOf(proc)
-//@   loop 0 invariant keyed: forall k string :: k in procs ==> procs[k] != nil && procName(procs[k]) == k
-//@   loop 0 invariant direct: forall i string, r string :: $visited[i] && r in inPortsOf(proc)[i].RemotePorts ==> listed(procs, inPortsOf(proc)[i].RemotePorts[r].process)
-//@   loop 0 invariant closed: forall k string, q ref :: k in procs && directUp(q, procs[k]) ==> listed(procs, q)
-//@   loop 0 invariant only-upstream: forall k string :: k in procs ==> directUp(procs[k], proc) || (exists k2 string :: k2 in procs && directUp(procs[k], procs[k2]))
+//@   loop 0 invariant keyed: keyedByName(procs)
+//@   loop 0 invariant direct: forall i string, r string :: $visited[i] && r in inPortsOf(proc)[i].RemotePorts && inPortsOf(proc)[i].RemotePorts[r].process != nil ==> procName(inPortsOf(proc)[i].RemotePorts[r].process) in procs
+//@   loop 0 invariant closed: forall k string, q ref :: k in procs && q != nil && directUp(q, procOf(k)) ==> procName(q) in procs
+//@   loop 0 invariant only-upstream: forall k string :: k in procs ==> directUp(procOf(k), proc) || (exists k2 string :: k2 in procs && directUp(procOf(k), procOf(k2)))
 //@   loop 1 invariant fresh: fresh(procs) && procs != nil
 //@   loop 1 invariant cur: inp != nil && (exists i string :: i in inPortsOf(proc) && inPortsOf(proc)[i] == inp)
 //@   loop 1 invariant vis: forall r string :: $visited[r] ==> r in inp.RemotePorts
-//@   loop 1 invariant keyed: forall k string :: k in procs ==> procs[k] != nil && procName(procs[k]) == k
-//@   loop 1 invariant direct-prev: forall i string, r string :: $visited0[i] && inPortsOf(proc)[i] != inp && r in inPortsOf(proc)[i].RemotePorts ==> listed(procs, inPortsOf(proc)[i].RemotePorts[r].process)
-//@   loop 1 invariant direct-cur: forall r string :: $visited[r] ==> listed(procs, inp.RemotePorts[r].process)
-//@   loop 1 invariant closed: forall k string, q ref :: k in procs && directUp(q, procs[k]) ==> listed(procs, q)
-//@   loop 1 invariant only-upstream: forall k string :: k in procs ==> directUp(procs[k], proc) || (exists k2 string :: k2 in procs && directUp(procs[k], procs[k2]))
+//@   loop 1 invariant keyed: keyedByName(procs)
+//@   loop 1 invariant direct-prev: forall i string, r string :: $visited0[i] && inPortsOf(proc)[i] != inp && r in inPortsOf(proc)[i].RemotePorts && inPortsOf(proc)[i].RemotePorts[r].process != nil ==> procName(inPortsOf(proc)[i].RemotePorts[r].process) in procs
+//@   loop 1 invariant direct-cur: forall r string :: $visited[r] && inp.RemotePorts[r].process != nil ==> procName(inp.RemotePorts[r].process) in procs
+//@   loop 1 invariant closed: forall k string, q ref :: k in procs && q != nil && directUp(q, procOf(k)) ==> procName(q) in procs
+//@   loop 1 invariant only-upstream: forall k string :: k in procs ==> directUp(procOf(k), proc) || (exists k2 string :: k2 in procs && directUp(procOf(k), procOf(k2)))
 //@   loop 2 invariant fresh: fresh(procs) && procs != nil
 //@   loop 2 invariant vis: forall i string :: $visited[i] ==> i in inParamPortsOf(proc)
-//@   loop 2 invariant keyed: forall k string :: k in procs ==> procs[k] != nil && procName(procs[k]) == k
-//@   loop 2 invariant direct-in: forall i string, r string :: i in inPortsOf(proc) && r in inPortsOf(proc)[i].RemotePorts ==> listed(procs, inPortsOf(proc)[i].RemotePorts[r].process)
-//@   loop 2 invariant direct: forall i string, r string :: $visited[i] && r in inParamPortsOf(proc)[i].RemotePorts ==> listed(procs, inParamPortsOf(proc)[i].RemotePorts[r].process)
-//@   loop 2 invariant closed: forall k string, q ref :: k in procs && directUp(q, procs[k]) ==> listed(procs, q)
-//@   loop 2 invariant only-upstream: forall k string :: k in procs ==> directUp(procs[k], proc) || (exists k2 string :: k2 in procs && directUp(procs[k], procs[k2]))
+//@   loop 2 invariant keyed: keyedByName(procs)
+//@   loop 2 invariant direct-in: forall i string, r string :: i in inPortsOf(proc) && r in inPortsOf(proc)[i].RemotePorts && inPortsOf(proc)[i].RemotePorts[r].process != nil ==> procName(inPortsOf(proc)[i].RemotePorts[r].process) in procs
+//@   loop 2 invariant direct: forall i string, r string :: $visited[i] && r in inParamPortsOf(proc)[i].RemotePorts && inParamPortsOf(proc)[i].RemotePorts[r].process != nil ==> procName(inParamPortsOf(proc)[i].RemotePorts[r].process) in procs
+//@   loop 2 invariant closed: forall k string, q ref :: k in procs && q != nil && directUp(q, procOf(k)) ==> procName(q) in procs
+//@   loop 2 invariant only-upstream: forall k string :: k in procs ==> directUp(procOf(k), proc) || (exists k2 string :: k2 in procs && directUp(procOf(k), procOf(k2)))
 //@   loop 3 invariant fresh: fresh(procs) && procs != nil
 //@   loop 3 invariant cur: pip != nil && (exists i string :: i in inParamPortsOf(proc) && inParamPortsOf(proc)[i] == pip)
 //@   loop 3 invariant vis: forall r string :: $visited[r] ==> r in pip.RemotePorts
-//@   loop 3 invariant keyed: forall k string :: k in procs ==> procs[k] != nil && procName(procs[k]) == k
-//@   loop 3 invariant direct-in: forall i string, r string :: i in inPortsOf(proc) && r in inPortsOf(proc)[i].RemotePorts ==> listed(procs, inPortsOf(proc)[i].RemotePorts[r].process)
-//@   loop 3 invariant direct-prev: forall i string, r string :: $visited2[i] && inParamPortsOf(proc)[i] != pip && r in inParamPortsOf(proc)[i].RemotePorts ==> listed(procs, inParamPortsOf(proc)[i].RemotePorts[r].process)
-//@   loop 3 invariant direct-cur: forall r string :: $visited[r] ==> listed(procs, pip.RemotePorts[r].process)
-//@   loop 3 invariant closed: forall k string, q ref :: k in procs && directUp(q, procs[k]) ==> listed(procs, q)
-//@   loop 3 invariant only-upstream: forall k string :: k in procs ==> directUp(procs[k], proc) || (exists k2 string :: k2 in procs && directUp(procs[k], procs[k2]))
+//@   loop 3 invariant keyed: keyedByName(procs)
+//@   loop 3 invariant direct-in: forall i string, r string :: i in inPortsOf(proc) && r in inPortsOf(proc)[i].RemotePorts && inPortsOf(proc)[i].RemotePorts[r].process != nil ==> procName(inPortsOf(proc)[i].RemotePorts[r].process) in procs
+//@   loop 3 invariant direct-prev: forall i string, r string :: $visited2[i] && inParamPortsOf(proc)[i] != pip && r in inParamPortsOf(proc)[i].RemotePorts && inParamPortsOf(proc)[i].RemotePorts[r].process != nil ==> procName(inParamPortsOf(proc)[i].RemotePorts[r].process) in procs
+//@   loop 3 invariant direct-cur: forall r string :: $visited[r] && pip.RemotePorts[r].process != nil ==> procName(pip.RemotePorts[r].process) in procs
+//@   loop 3 invariant closed: forall k string, q ref :: k in procs && q != nil && directUp(q, procOf(k)) ==> procName(q) in procs
+//@   loop 3 invariant only-upstream: forall k string :: k in procs ==> directUp(procOf(k), proc) || (exists k2 string :: k2 in procs && directUp(procOf(k), procOf(k2)))
 
 // ---- wiring operations (port.go) ----
 
@@ -1040,14 +1040,15 @@ package scipipe
 //@ func (*Workflow).RunToProcs(wf, finalProcs)
 //@   props C16
 //@   modifies *
-//@   atcall (*Workflow).runProcs targets-included: forall j int :: 0 <= j && j < len(finalProcs) ==> listed($arg1, finalProcs[j])
-//@   atcall (*Workflow).runProcs upstream-included: forall j int, q ref :: 0 <= j && j < len(finalProcs) && directUp(q, finalProcs[j]) ==> listed($arg1, q)
-//@   atcall (*Workflow).runProcs closed-under-upstream: forall q1 ref, q ref :: listed($arg1, q1) && directUp(q, q1) ==> listed($arg1, q)
-//@   atcall (*Workflow).runProcs nothing-else: forall q ref :: listed($arg1, q) ==> (exists j int :: 0 <= j && j < len(finalProcs) && q == finalProcs[j]) || (exists q2 ref :: listed($arg1, q2) && directUp(q, q2))
+//@   atcall (*Workflow).runProcs keyed: keyedByName($arg1)
+//@   atcall (*Workflow).runProcs targets-included: forall j int :: 0 <= j && j < len(finalProcs) ==> procName(finalProcs[j]) in $arg1
+//@   atcall (*Workflow).runProcs upstream-included: forall j int, q ref :: 0 <= j && j < len(finalProcs) && q != nil && directUp(q, finalProcs[j]) ==> procName(q) in $arg1
+//@   atcall (*Workflow).runProcs closed-under-upstream: forall k string, q ref :: k in $arg1 && q != nil && directUp(q, procOf(k)) ==> procName(q) in $arg1
+//@   atcall (*Workflow).runProcs nothing-else: forall k string :: k in $arg1 ==> (exists j int :: 0 <= j && j < len(finalProcs) && k == procName(finalProcs[j])) || (exists k2 string :: k2 in $arg1 && directUp(procOf(k), procOf(k2)))
 //@   loop 0 invariant range: 0 <= $i && $i <= len(finalProcs)
 //@   loop 0 invariant fresh: fresh(procsToRun) && procsToRun != nil
-//@   loop 0 invariant keyed: forall k string :: k in procsToRun ==> procsToRun[k] != nil && procName(procsToRun[k]) == k
-//@   loop 0 invariant targets: forall j int :: 0 <= j && j < $i ==> listed(procsToRun, finalProcs[j])
-//@   loop 0 invariant upstream: forall j int, q ref :: 0 <= j && j < $i && directUp(q, finalProcs[j]) ==> listed(procsToRun, q)
-//@   loop 0 invariant closed: forall q1 ref, q ref :: listed(procsToRun, q1) && directUp(q, q1) ==> listed(procsToRun, q)
-//@   loop 0 invariant nothing-else: forall q ref :: listed(procsToRun, q) ==> (exists j int :: 0 <= j && j < $i && q == finalProcs[j]) || (exists q2 ref :: listed(procsToRun, q2) && directUp(q, q2))
+//@   loop 0 invariant keyed: keyedByName(procsToRun)
+//@   loop 0 invariant targets: forall j int :: 0 <= j && j < $i ==> procName(finalProcs[j]) in procsToRun
+//@   loop 0 invariant upstream: forall j int, q ref :: 0 <= j && j < $i && q != nil && directUp(q, finalProcs[j]) ==> procName(q) in procsToRun
+//@   loop 0 invariant closed: forall k string, q ref :: k in procsToRun && q != nil && directUp(q, procOf(k)) ==> procName(q) in procsToRun
+//@   loop 0 invariant nothing-else: forall k string :: k in procsToRun ==> (exists j int :: 0 <= j && j < $i && k == procName(finalProcs[j])) || (exists k2 string :: k2 in procsToRun && directUp(procOf(k), procOf(k2)))
